@@ -370,6 +370,7 @@ func main() {
 						v.Defs = map[string]any{}
 					}
 					v.checkRefs()
+					v.All = ir
 					if s, ok := ir.Locate(d.pkg); ok && ir != nil {
 						v.checkSchema(s)
 					} else if ir != nil {
